@@ -56,6 +56,11 @@ def gen_unit(ctx, ty):
             v = rnd.choice(['yaml', 'file', 'unit', 'unit', 'ctx/dir', rnd.choice(NASTY) + '/ctx', '/abs/' + rnd.choice(NASTY)])
         elif k in PATH_KEYS and rnd.random() < 0.4:
             v = rnd.choice(['/opt/', '', 'rel/']) + v + '/f'
+        elif k == 'Volume' and rnd.random() < 0.5:
+            # a host path (absolute or .-relative: it becomes RequiresMountsFor=) with the nasty text and, often, a blank
+            v = rnd.choice(['/srv/', './', '/']) + rnd.choice(['', 'my data', 'a b ']) + rnd.choice(NASTY) + rnd.choice(['', ' x', ' y z']) + ':/data'
+        elif k == 'Mount' and rnd.random() < 0.5:
+            v = 'type=bind,' + rnd.choice(['source', 'src']) + '=' + rnd.choice(['/srv/', './']) + rnd.choice(['', 'my data']) + rnd.choice(NASTY).replace(',', '') + rnd.choice(['', ' x']) + ',dst=/m'
         if k == 'ServiceName' and ('/' in v or rnd.random() < 0.6):
             continue
         if rnd.random() < 0.12:
